@@ -13,6 +13,8 @@
 //! conservation (every send that reported success is on the wire exactly once); every WebSocket
 //! binary message exactly one complete frame.
 //!
+//! The batch entry points (batch_json / batch_json_with_timeout) are a send API of their own: c05_scen_batch.rs.
+//!
 //! Stages: "main" (all lanes). An extra positional argument filters scenarios by name substring.
 
 #[cfg(not(feature = "net"))]
@@ -37,6 +39,9 @@ mod c05_scen_cli;
 #[cfg(feature = "net")]
 #[path = "c05_scen_srv.rs"]
 mod c05_scen_srv;
+#[cfg(feature = "net")]
+#[path = "c05_scen_batch.rs"]
+mod c05_scen_batch;
 
 #[cfg(feature = "net")]
 pub use imp::run;
@@ -45,7 +50,7 @@ pub use imp::run;
 mod imp {
     use super::c05_oracle::{Book, Tail, walk};
     use super::c05_peers::{End, Record, WsItem};
-    use super::{c05_scen_cli as cli, c05_scen_srv as srv};
+    use super::{c05_scen_batch as batch, c05_scen_cli as cli, c05_scen_srv as srv};
     use crate::common::*;
     use serde_json::{Value, json};
     use std::collections::{BTreeMap, HashMap};
@@ -86,6 +91,28 @@ mod imp {
         pub further_err: u64,
         pub ident: u64,
         pub med: Option<MedEvidence>,
+        /// Some: the scenario sends through the batch entry points (batch_json / batch_json_with_timeout); what it observed
+        pub batch: Option<BatchEvidence>,
+    }
+
+    /// Evidence counters of a scenario that uses the batch entry points as a way of sending.
+    #[derive(Default, Clone)]
+    pub struct BatchEvidence {
+        pub counters: BTreeMap<String, u64>,
+    }
+
+    impl BatchEvidence {
+        pub fn add(&mut self, k: &str, n: u64) {
+            *self.counters.entry(k.to_string()).or_default() += n;
+        }
+        pub fn add_owned(&mut self, k: String, n: u64) {
+            *self.counters.entry(k).or_default() += n;
+        }
+        pub fn merge(&mut self, o: &BatchEvidence) {
+            for (k, v) in &o.counters {
+                *self.counters.entry(k.clone()).or_default() += v;
+            }
+        }
     }
 
     impl ScenarioOut {
@@ -105,6 +132,7 @@ mod imp {
                 further_err: 0,
                 ident: 0,
                 med: None,
+                batch: None,
             }
         }
         pub fn note_result(&mut self, r: &Result<(), String>) {
@@ -304,7 +332,19 @@ mod imp {
 
     fn judge(rep: &mut Report, t: &mut Tally, cx: &Cx, lane: &str, idx: usize, out: ScenarioOut) {
         rep.eval();
-        let class = if out.med.is_some() { format!("{}:{}:medium_stream", out.endpoint, out.cause) } else { format!("{}:{}", out.endpoint, out.cause) };
+        let class = if out.med.is_some() {
+            format!("{}:{}:medium_stream", out.endpoint, out.cause)
+        } else if out.batch.is_some() {
+            format!("{}:{}:batch", out.endpoint, out.cause)
+        } else {
+            format!("{}:{}", out.endpoint, out.cause)
+        };
+        if let Some(b) = &out.batch {
+            *t.counters.entry("batch_scenarios".into()).or_default() += 1;
+            for (k, v) in &b.counters {
+                *t.counters.entry(if k.starts_with("batch") { k.clone() } else { format!("batch_{k}") }).or_default() += v;
+            }
+        }
         if let Some(m) = &out.med {
             *t.counters.entry("medium_stream_scenarios".into()).or_default() += 1;
             *t.counters.entry("medium_stream_frames_submitted_to_stalled_peer".into()).or_default() += m.stream_sums.len() as u64;
@@ -345,7 +385,8 @@ mod imp {
         let mut conn_failed_as_required = false;
         let nconns = out.conns.len();
         for c in out.conns {
-            let sig = |class: &str| format!("C05:{class}:{}:{}", out.endpoint, out.cause);
+            // scenarios that send through the batch entry points get a site of their own
+            let sig = |class: &str| format!("C05:{class}:{}:{}{}", out.endpoint, out.cause, if out.batch.is_some() { ".batch" } else { "" });
             let mut seen_tokens: HashMap<u64, usize> = HashMap::new();
             let mut tail_token: Option<u64> = None;
             let mut tail_desc = String::new();
@@ -446,7 +487,8 @@ mod imp {
                     }
                 }
             }
-            if out.fault_triggered == Some(true) && c.victim.is_some() && !seen_tokens.contains_key(&c.victim.unwrap()) && nconns == 1 {
+            // (batch histories run several independent connections and name a victim only where the interruption took effect)
+            if out.fault_triggered == Some(true) && c.victim.is_some() && !seen_tokens.contains_key(&c.victim.unwrap()) && (nconns == 1 || out.batch.is_some()) {
                 // legal outcome: the interrupted frame is the (possibly empty) tail and nothing follows
                 conn_failed_as_required = true;
             }
@@ -492,6 +534,8 @@ mod imp {
                     sc!("client.write_timeout.medium.a", |c, r| cli::client_medium_stream(c, r)),
                     sc!("server.write_timeout.medium.a", |c, r| srv::tcp_server(c, r, SrvKind::Blocking, Mode::WriteTimeoutMedium)),
                     sc!("client.write_timeout.medium.b", |c, r| cli::client_medium_stream(c, r)),
+                    sc!("client.batch.history.a", |c, r| batch::client_batch_history(c, r, 0)),
+                    sc!("client.batch.concurrent", |c, r| batch::client_batch_concurrent(c, r)),
                 ],
             },
             Lane {
@@ -511,6 +555,8 @@ mod imp {
                     sc!("async_client.cancel.medium.a", |c, r| cli::aclient_medium_stream(c, r, Tcp)),
                     sc!("async_server.write_timeout.medium.a", |c, r| srv::tcp_server(c, r, SrvKind::Async, Mode::WriteTimeoutMedium)),
                     sc!("async_client.cancel.medium.b", |c, r| cli::aclient_medium_stream(c, r, Tcp)),
+                    sc!("async_client.batch.history.a", |c, r| batch::aclient_batch_history(c, r, Tcp, 1)),
+                    sc!("async_client.batch.concurrent", |c, r| batch::aclient_batch_concurrent(c, r, Tcp)),
                 ],
             },
             Lane {
@@ -528,6 +574,11 @@ mod imp {
                     sc!("ws_client.cancel.medium.a", |c, r| cli::aclient_medium_stream(c, r, Ws)),
                     // (this lane is the shortest: it also hosts a third blocking-client medium stream)
                     sc!("client.write_timeout.medium.c", |c, r| cli::client_medium_stream(c, r)),
+                    sc!("ws_client.batch.history", |c, r| batch::aclient_batch_history(c, r, Ws, 2)),
+                    sc!("ws_client.batch.concurrent", |c, r| batch::aclient_batch_concurrent(c, r, Ws)),
+                    // (hosted here for the same reason: a second blocking-client and a second async-client batch history)
+                    sc!("client.batch.history.b", |c, r| batch::client_batch_history(c, r, 3)),
+                    sc!("async_client.batch.history.b", |c, r| batch::aclient_batch_history(c, r, Tcp, 4)),
                 ],
             },
         ]
@@ -546,10 +597,15 @@ mod imp {
              frames with query+body 8100..8300 densely covering 8145..=8192, plus 4/8/16 KiB±1, that fills the pipe of a stalled peer until a \
              write is interrupted, then more sends while still stalled), then FURTHER traffic after the peer drained; oracle = \
              sequential walk: frame* · optional strict prefix of one frame with nothing after it, each frame byte-equal to one submitted \
-             message (body = f(token, offset)), conservation, one frame per WebSocket message; every third client call goes out through call_typed_slice (BEVE u8 array of the same pattern bytes) instead of *_with_formats; distinct = (endpoint, fault, workload shape hash)",
+             message (body = f(token, offset)), conservation, one frame per WebSocket message; the BATCH entry points (batch_json / \
+             batch_json_with_timeout of all three clients, JSON items whose text the harness writes itself) are a send API of their own: \
+             per-connection histories where the interrupted frame is one item of a batch (first/middle/last, batches > 64, small and > 8 KiB \
+             items around it) or an ordinary send followed by a batch, the next send (batch / call / notify, same handle or clone, in flight or \
+             after) and a peer resuming immediately / within / 1, 2, 3+ timeout periods after the stall / after the sender returned, plus \
+             concurrent batches and ordinary sends from several clones; every third client call goes out through call_typed_slice (BEVE u8 array of the same pattern bytes) instead of *_with_formats; distinct = (endpoint, fault, workload shape hash)",
         );
         let mut rep = rep;
-        if let Err(e) = u8_array_prefix_self_check() {
+        if let Err(e) = u8_array_prefix_self_check().and_then(|_| batch::json_item_self_check()) {
             rep.inconclusive(format!("harness: {e}"));
             return rep;
         }
@@ -648,6 +704,9 @@ mod imp {
                 }
             }
         }
+        if filter.is_none() && (rep.get_count("batch_calls_issued") == 0 || rep.get_count("batch_histories_with_interruption_in_effect") == 0) {
+            rep.inconclusive("the batch entry points were never exercised with an interruption in effect");
+        }
         if rep.get_count("frames_verified_byte_exact") == 0 {
             rep.inconclusive("no frame was recorded");
         }
@@ -660,4 +719,4 @@ mod imp {
 }
 
 #[cfg(feature = "net")]
-pub use imp::{ConnOut, Cx, MedEvidence, Op, ScenarioOut, WINDOW, med_split, med_sums, path_of, path_of_op, pick_len, size_class, u8_array_prefix};
+pub use imp::{BatchEvidence, ConnOut, Cx, MedEvidence, Op, ScenarioOut, WINDOW, med_split, med_sums, path_of, path_of_op, pick_len, size_class, u8_array_prefix};
